@@ -1086,8 +1086,10 @@ class ComponentSpecification(experiment.model.interface.InternalRepresentationAt
             existing = [index for index in existing if index is not None]
 
             if not existing:
+                # VV: the error expects (DataReference, path) tuples (it reads ref.stringRepresentation, and those
+                # who catch it treat the first item as a DataReference) - not the ComponentSpecification itself
                 raise experiment.model.errors.DataReferenceFilesDoNotExistError(
-                    [(self, search)]
+                    [(DataReference('%s:%s' % (self.identification.identifier, DataReference.Output)), search)]
                 )
 
             # VV: There are some stdout streams, so just grab the most recent one
